@@ -1,14 +1,16 @@
 ----------------------------- MODULE FoReprCases -----------------------------
 (* enumerates declaration shapes and exports, for each, the Folang text and the compile-time assertions of its documented surface *)
 EXTENDS FoRepr, Json, SequencesExt
-CONSTANTS OutFile
+CONSTANTS OutFile,
+          Big       \* the thorough universe: 3-field records over all field types, 3-case unions over all payloads, 3-parameter functions
 
 FT == {B("int"), B("string"), B("bool"), <<"slice", B("int")>>, <<"tuple", <<B("int"), B("string")>>>>,
        <<"func", <<B("int")>>, B("string")>>, <<"named", "dict.Dict", <<B("string"), B("int")>>>>, B("float"), B("any"),
        <<"tuple", <<B("int"), <<"tuple", <<B("string"), B("bool")>>>>>>>>, <<"tuple", <<B("int"), B("string"), B("bool")>>>>}
 FNames == <<"F0", "f1", "G2">>
 Records == UNION {{[k |-> "record", fields |-> [i \in 1..n |-> [n |-> FNames[i], t |-> ts[i]]]] : ts \in [1..n -> FT]} : n \in 1..2}
-           \cup {[k |-> "record", fields |-> [i \in 1..3 |-> [n |-> FNames[i], t |-> ts[i]]]] : ts \in [1..3 -> {B("int"), B("string"), <<"slice", B("int")>>}]}
+           \cup {[k |-> "record", fields |-> [i \in 1..3 |-> [n |-> FNames[i], t |-> ts[i]]]] :
+                     ts \in [1..3 -> IF Big THEN FT ELSE {B("int"), B("string"), <<"slice", B("int")>>}]}
 
 PT == {B("int"), B("string"), <<"slice", B("int")>>, <<"tuple", <<B("int"), B("string")>>>>,
        <<"tuple", <<B("int"), <<"tuple", <<B("string"), B("bool")>>>>>>>>, <<"tuple", <<<<"tuple", <<B("int"), B("string")>>>>, B("bool")>>>>}
@@ -18,11 +20,12 @@ Payloads(gen) == {[has |-> FALSE, t |-> Unit]} \cup {[has |-> TRUE, t |-> t] : t
 Unions == UNION {{[k |-> "union", gen |-> g, cases |-> [i \in 1..n |-> [n |-> CNames[i], has |-> ps[i].has, t |-> ps[i].t]]] :
                     ps \in [1..n -> Payloads(g)]} : n \in 1..2, g \in BOOLEAN}
           \cup UNION {{[k |-> "union", gen |-> g, cases |-> [i \in 1..3 |-> [n |-> CNames[i], has |-> ps[i].has, t |-> ps[i].t]]] :
-                    ps \in [1..3 -> {[has |-> FALSE, t |-> Unit], [has |-> TRUE, t |-> B("int")], [has |-> TRUE, t |-> IF g THEN B("T") ELSE B("string")]}]} : g \in BOOLEAN}
+                    ps \in [1..3 -> IF Big THEN Payloads(g)
+                                     ELSE {[has |-> FALSE, t |-> Unit], [has |-> TRUE, t |-> B("int")], [has |-> TRUE, t |-> IF g THEN B("T") ELSE B("string")]}]} : g \in BOOLEAN}
 
 AT == {B("int"), B("string"), <<"slice", B("int")>>, <<"tuple", <<B("int"), B("string")>>>>, <<"func", <<B("int")>>, B("int")>>}
 Funcs == UNION {{[k |-> "func", params |-> ps, res |-> r] : ps \in [1..n -> AT], r \in {Unit, B("int"), B("string")}} : n \in 0..2}
-         \cup {[k |-> "func", params |-> ps, res |-> B("int")] : ps \in [1..3 -> {B("int"), B("string")}]}
+         \cup {[k |-> "func", params |-> ps, res |-> r] : ps \in [1..3 -> IF Big THEN AT ELSE {B("int"), B("string")}], r \in IF Big THEN {Unit, B("int"), B("string")} ELSE {B("int")}}
 Vars == {[k |-> "var", t |-> t] : t \in {B("int"), B("string"), B("bool")}}
 
 LamVars == UNION {{[k |-> "lamvar", params |-> ps, res |-> r] : ps \in [1..n -> {B("int"), B("string")}], r \in {B("int"), B("string")}} : n \in 1..2}
